@@ -2,6 +2,7 @@
 Helper lemmas for C34 (model: AgVerif.ApkFiles).
 -/
 import AgVerif.Model.ApkFiles
+import AgVerif.Spec.ApkFiles
 namespace AgVerif.ApkFiles
 
 theorem isDig_eq_isDigit (c : Char) : isDig c = c.isDigit := by
@@ -213,5 +214,160 @@ theorem map_getFile_filter (p : Name → Bool) (all entries : List (Name × Byte
 def sample : List (Name × Bytes) :=
   [("classes10.dex".toList, [1, 2]), ("res/classes.dex".toList, [3]), ("classesXdex".toList, []),
    ("classes.dex".toList, [100, 101, 120]), ("ü/ß.txt".toList, [255]), ("classes2.dex".toList, [])]
+
+/-! ### the dict built from a central directory whose names may repeat, against Spec/ApkFiles -/
+open AgVerif.Spec.ApkFiles (listed contentOf)
+
+theorem keys_dictSet (d : List (Name × Bytes)) (k : Name) (v : Bytes) :
+    (dictSet d k v).map Prod.fst = if k ∈ d.map Prod.fst then d.map Prod.fst else d.map Prod.fst ++ [k] := by
+  induction d with
+  | nil => simp [dictSet]
+  | cons e d ih =>
+    obtain ⟨m, b⟩ := e
+    by_cases h : m = k
+    · subst h; simp [dictSet]
+    · have h' : ¬ k = m := fun e => h e.symm
+      simp only [dictSet, h, ↓reduceIte, List.map_cons, ih, List.mem_cons, h', false_or]
+      split <;> simp
+
+theorem getFile_dictSet (d : List (Name × Bytes)) (k : Name) (v : Bytes) (n : Name) :
+    getFile (dictSet d k v) n = if k = n then .ok v else getFile d n := by
+  induction d with
+  | nil => simp [dictSet, getFile]
+  | cons e d ih =>
+    obtain ⟨m, b⟩ := e
+    by_cases h : m = k
+    · subst h
+      by_cases hn : m = n <;> simp [dictSet, getFile, hn]
+    · simp only [dictSet, h, ↓reduceIte, getFile, ih]
+      by_cases hn : m = n
+      · have : ¬ k = n := fun e => h (hn.trans e.symm)
+        simp [hn, this]
+      · simp [hn]
+
+theorem keys_fold (cd d : List (Name × Bytes)) :
+    (cd.foldl (fun d e => dictSet d e.1 e.2) d).map Prod.fst =
+      d.map Prod.fst ++ (listed (cd.map Prod.fst)).filter (fun n => decide (n ∉ d.map Prod.fst)) := by
+  induction cd generalizing d with
+  | nil => simp [listed]
+  | cons e cd ih =>
+    simp only [List.foldl_cons, ih, keys_dictSet, List.map_cons, listed]
+    by_cases h : e.1 ∈ d.map Prod.fst
+    · simp only [h, ↓reduceIte, List.filter_cons, not_true_eq_false, decide_false, Bool.false_eq_true,
+        List.filter_filter]
+      congr 1
+      apply List.filter_congr
+      intro x _
+      by_cases hx : x ∈ d.map Prod.fst
+      · simp [hx]
+      · have : x ≠ e.1 := fun e' => hx (e' ▸ h)
+        simp [hx, this]
+    · simp only [h, ↓reduceIte, List.filter_cons, not_false_eq_true, decide_true, List.filter_filter,
+        List.append_assoc, List.singleton_append]
+      congr 2
+      apply List.filter_congr
+      intro x _
+      simp only [List.mem_append, List.mem_singleton, not_or, Bool.decide_and]
+
+theorem dictOf_keys (cd : List (Name × Bytes)) :
+    getFiles (dictOf cd) = listed (cd.map Prod.fst) := by
+  simp [getFiles, dictOf, keys_fold]
+
+theorem getFile_fold (cd d : List (Name × Bytes)) (n : Name) :
+    getFile (cd.foldl (fun d e => dictSet d e.1 e.2) d) n =
+      match contentOf cd n with
+      | some b => .ok b
+      | none => getFile d n := by
+  induction cd generalizing d with
+  | nil => simp [contentOf]
+  | cons e cd ih =>
+    obtain ⟨m, b⟩ := e
+    simp only [List.foldl_cons, ih, contentOf]
+    cases contentOf cd n with
+    | some b' => rfl
+    | none =>
+      simp only [getFile_dictSet]
+      by_cases h : m = n <;> simp [h]
+
+theorem dictOf_getFile (cd : List (Name × Bytes)) (n : Name) :
+    getFile (dictOf cd) n =
+      match contentOf cd n with
+      | some b => .ok b
+      | none => .error .fileNotPresent := by
+  rw [dictOf, getFile_fold]; rfl
+
+/-! facts about the specification's own definitions (so that `listed` / `contentOf` mean what they say) -/
+theorem mem_listed (ns : List Name) (n : Name) : n ∈ listed ns ↔ n ∈ ns := by
+  induction ns with
+  | nil => simp [listed]
+  | cons m ns ih =>
+    simp only [listed, List.mem_cons, List.mem_filter, ih, decide_eq_true_eq]
+    by_cases h : n = m <;> simp [h]
+
+theorem listed_nodup (ns : List Name) : (listed ns).Nodup := by
+  induction ns with
+  | nil => simp [listed]
+  | cons m ns ih =>
+    simp only [listed, List.nodup_cons, List.mem_filter, decide_eq_true_eq, ne_eq, not_true_eq_false,
+      and_false, not_false_eq_true, true_and]
+    exact ih.sublist List.filter_sublist
+
+theorem listed_sublist (ns : List Name) : (listed ns).Sublist ns := by
+  induction ns with
+  | nil => simp [listed]
+  | cons m ns ih =>
+    simp only [listed]
+    exact (List.filter_sublist.trans ih).cons_cons m
+
+theorem listed_of_nodup (ns : List Name) (h : ns.Nodup) : listed ns = ns := by
+  induction ns with
+  | nil => rfl
+  | cons m ns ih =>
+    rw [List.nodup_cons] at h
+    simp only [listed, ih h.2]
+    congr 1
+    apply List.filter_eq_self.2
+    intro x hx
+    simp only [decide_eq_true_eq]
+    exact fun e => h.1 (e ▸ hx)
+
+theorem contentOf_eq_none (cd : List (Name × Bytes)) (n : Name) :
+    contentOf cd n = none ↔ n ∉ cd.map Prod.fst := by
+  induction cd with
+  | nil => simp [contentOf]
+  | cons e cd ih =>
+    obtain ⟨m, b⟩ := e
+    simp only [contentOf, List.map_cons, List.mem_cons, not_or]
+    cases h : contentOf cd n with
+    | some b' =>
+      have : n ∈ cd.map Prod.fst := by
+        apply Classical.byContradiction
+        intro hc; rw [ih.2 hc] at h; cases h
+      simp [this]
+    | none =>
+      have := ih.1 h
+      by_cases hm : m = n
+      · simp [hm]
+      · have hm' : ¬ n = m := fun e => hm e.symm
+        simp [hm, hm', this]
+
+/-- the LAST header of a name decides its content -/
+theorem contentOf_last (pre post : List (Name × Bytes)) (n : Name) (b : Bytes)
+    (h : n ∉ post.map Prod.fst) : contentOf (pre ++ (n, b) :: post) n = some b := by
+  induction pre with
+  | nil => simp [contentOf, (contentOf_eq_none post n).2 h]
+  | cons e pre ih =>
+    obtain ⟨m, b'⟩ := e
+    simp [contentOf, ih]
+
+theorem getAllDex_dictOf (cd : List (Name × Bytes)) :
+    getAllDex (dictOf cd) = (dexNames (listed (cd.map Prod.fst))).map (fun n =>
+      match contentOf cd n with
+      | some b => .ok b
+      | none => .error .fileNotPresent) := by
+  simp only [getAllDex, dictOf_keys]
+  apply List.map_congr_left
+  intro n _
+  exact dictOf_getFile cd n
 
 end AgVerif.ApkFiles
